@@ -1,7 +1,7 @@
 """C04 - note-length expressions. Theorems: props/C04.v. Correspondence: model calc_length vs
 runner::calc_length (public) on grammar strings and junk strings. Oracle: the extracted
 specification `denote` and the additivity law, applied to the implementation's results."""
-import json, os
+import json, os, re
 import vlib
 
 COQ_TARGET = "props/C04.v"
@@ -10,7 +10,7 @@ RULE = ("expressions generated from the grammar [%]?[-]?digits? dots? ((^|+) par
         "extracted Coq printer), time bases 48..32767, defaults 0..4*tb, plus junk strings over the length alphabet; "
         "non-trivial = distinct (string,tb,default) with at least one part, dot or step marker")
 TRUSTED = ["f32 dot arithmetic of calc_length is exact for |values| < 2^20 (modelled in exact arithmetic; sampled up to that edge)"]
-ASSUMES = ["numerals below 10^6 where dots follow (no f32 rounding); undotted numerals of any length (they saturate at 2^31-1)"]
+ASSUMES = ["in-program cases: expressions not starting with - or + (accidental / backward rest), numerals below 10^7, results below 2^20", "numerals below 10^6 where dots follow (no f32 rounding); undotted numerals of any length (they saturate at 2^31-1)"]
 
 DIG_POOL = ["1", "2", "3", "4", "6", "8", "12", "16", "24", "32", "48", "64", "96", "128", "192", "0", "00", "04", "016",
             "5", "7", "9", "10", "100", "1000", "384", "65535", "999999"]
@@ -125,6 +125,37 @@ def run(ctx):
         if not ok:
             ctx.oracle_fail("len(A^B) != len(A)+len(B) for A=%r B=%r" % (a, b), lines[3 * i], ab, "%s+%s" % (ga, gb),
                             input_text="%s^%s|%d|%d" % (a, b, tb, d))
+    # the same expressions where they are WRITTEN: after a rest and a note in a program (the reader that cuts the length
+    # text out of the source runs before calc_length); a marker note shows where the time pointer stands afterwards
+    progs = []
+    for (e, txt, want) in keep[: (500 if ctx.tier == "quick" else 20000)]:
+        s_, tb, d = vlib.dec_text(txt), e[2], e[3]
+        # (numerals of 7+ digits and results beyond 2^20 are left to the calc_length-level checks: the note's gate is f32 arithmetic)
+        if not (48 <= tb <= 32767 and d > 0 and 0 <= int(want) < 2 ** 20 and s_) or re.search(r"\d{7,}", s_):
+            continue
+        head = "TimeBase(%d) l%%%d " % (tb, d)
+        if s_[0] in "-+":
+            continue        # after a note letter a leading - or + is an accidental, after r a leading - is the backward rest
+        form = rng.choice(["r", "c"])
+        body = {"r": "r%s" % s_, "c": "c%s" % s_}[form]
+        progs.append((head + body + " CH(16)n100,%1", int(want), s_))
+    got = ctx.impl(["compile_ev\t%s" % vlib.enc_text(p[0]) for p in progs], stall=15)
+    mod = ctx.model(["compile_core\t%s" % vlib.enc_text(p[0]) for p in progs])
+    glex = ctx.impl(["compile_lex\t%s" % vlib.enc_text(p[0]) for p in progs], stall=15)
+    for (src, want, s_), g, m, gl in zip(progs, got, mod, glex):
+        ctx.count("in_program", src)
+        if m.startswith("UNSUPPORTED") or m.startswith("OUTOFFUEL"):
+            ctx.unsupported += 1
+        elif gl != m:
+            ctx.disagree("compile (lex/exec/generate) of a program with a length expression", src, gl[:300], m[:300])
+        f = g.split("\t")
+        if len(f) < 3:
+            ctx.oracle_fail("a program with the length expression %r does not compile" % s_, src, g[:100], "a MIDI file", input_text=src)
+            continue
+        marks = [int(ev.split(":")[1]) for trk in f[2].split("/") for ev in trk.split(";") if ev.startswith("N:") and ev.split(":")[2] == "15"] \
+            if f[2] != "-" else []
+        if marks != [want]:
+            ctx.oracle_fail("the time pointer after %r in a program is not the documented tick count" % s_, src, str(marks), str([want]), input_text=src)
     # junk strings: correspondence only
     junk = [(gen_junk(rng), rng.choice(TB_POOL), rng.choice([0, 48, 96, 100])) for _ in range(n // 2)]
     lines = ["calc_length\t%s\t%d\t%d" % (vlib.enc_text(s), tb, d) for s, tb, d in junk]
